@@ -1550,7 +1550,15 @@ SyntaxVisitor::Action TypeChecker::visitCallExpression(
 
 SyntaxVisitor::Action TypeChecker::visitVAArgumentExpression(const VAArgumentExpressionSyntax*) { return Action::Skip; }
 SyntaxVisitor::Action TypeChecker::visitOffsetOfExpression(const OffsetOfExpressionSyntax*) { return Action::Skip; }
-SyntaxVisitor::Action TypeChecker::visitCompoundLiteralExpression(const CompoundLiteralExpressionSyntax*) { return Action::Skip; }
+SyntaxVisitor::Action TypeChecker::visitCompoundLiteralExpression(
+        const CompoundLiteralExpressionSyntax* node)
+{
+    // An unnamed object of the type the type name specifies (6.5.2.5-4, 5);
+    // its initializer list isn't checked against the type.
+    VISIT(node->typeName());
+
+    return typeChecked(node, ty_);
+}
 
 namespace
 {
